@@ -45,6 +45,8 @@ const SHARED_PROGRAMS: &[&str] = &[
     ".a = [.c] | .e.f += 1",
     "[.[]] | (.[1] |= empty) | length",
     "(.b |= empty) | keys_unsorted",
+    // a decoder at work inside the run, on every thread at once
+    "((\"[\" * 100) + (\"]\" * 100)) | fromjson | tojson | length",
 ];
 
 fn compile(code: &str) -> F {
